@@ -18,9 +18,13 @@ def check_prog(ctx, r, prog, n_values, reply_too=False):
     canon = Canon(r, prog)
     pn = prog["name"]
     have = {k for k in ALL_KINDS if any(True for _ in handlers(prog, kind=k))}
-    eps = ["instantiate", "exec", "query", "sudo"] + (["migrate"] if "migrate" in have else [])
-    if reply_too:
-        eps.append("reply")
+    ov = {o["kind"] for o in prog.get("overrides", [])}
+    # generated entry points exist per configuration; the multitest Contract impl always has all six
+    eps_ep = [k for k in ["instantiate", "exec", "query", "sudo"] + (["migrate"] if "migrate" in have else []) if k not in ov]
+    has_reply = any(True for _ in handlers(prog, kind="reply"))
+    if has_reply and "reply" not in ov:
+        eps_ep.append("reply")
+    eps = ["instantiate", "exec", "query", "sudo", "migrate"] + (["reply"] if (reply_too or has_reply) else [])
     docs = []
     for h in handlers(prog):
         if h["kind"] == "reply":
@@ -32,6 +36,11 @@ def check_prog(ctx, r, prog, n_values, reply_too=False):
     # a serialised Reply is a document too
     reply_doc = dumps({"id": 0, "payload": "", "gas_used": 1, "result": {"ok": {"events": [], "data": None, "msg_responses": []}}})
     docs.append(({"kind": "reply", "hid": "<reply struct>", "name": "id", "args": []}, reply_doc))
+    if ov:
+        # the message of user-written (overriding) entry points is a document as well
+        for k in sorted(ov):
+            if k != "reply":
+                docs.append(({"kind": k, "hid": f"<override {k}>", "name": "tag", "args": []}, dumps({"tag": rng.randrange(1000)})))
     cmds, meta = [], []
     for h, d in docs:
         for k2 in eps:
@@ -44,10 +53,14 @@ def check_prog(ctx, r, prog, n_values, reply_too=False):
                     rep = {"id": rng.choice([0, 1, 2, 3]), "payload": b64 if form == "payload" else "", "gas_used": 5,
                            "result": {"ok": {"events": [], "data": b64 if form == "data" else None, "msg_responses": []}}}
                     for path in ("ep", "mtc"):
+                        if path == "ep" and k2 not in eps_ep:
+                            continue
                         cmds.append({"prog": pn, "op": f"{path}:reply", "reply": rep, "world": world, "env": env})
                         meta.append((h, d, k2, path))
                 continue
             for path in ("ep", "mtc"):
+                if path == "ep" and k2 not in eps_ep:
+                    continue
                 cmds.append({"prog": pn, "op": f"{path}:{EP_OF[k2]}", "doc": d, "world": world, "env": env, "info": info,
                              "plan": ({"ok": "0"} if k2 == "query" else None)})
                 meta.append((h, d, k2, path))
@@ -69,7 +82,7 @@ def check_prog(ctx, r, prog, n_values, reply_too=False):
         if "panic" in o:
             ctx.violate(f"panic:{k1}->{k2}", f"{pn}: {k2} entry point panicked on a {k1} document: {o['panic'][:100]}", detail)
             continue
-        if evs and k2 in KINDS_ENUM:
+        if evs and k2 in KINDS_ENUM and not evs[0]["handler"].startswith("ov."):
             # the K2 model: the handler is the K2 handler named by the document's only key
             try:
                 keys = list(json.loads(d).keys())
@@ -103,6 +116,11 @@ def run(ctx):
         return s
     for s in fam.each_bin(per_bin):
         pairs |= s
+    for famname in ("epcfg", "generic"):
+        xf = ctx.family(famname)
+        for s in xf.each_bin(lambda b, progs, r: set().union(*[check_prog(ctx, r, p, max(1, n // 3)) for p in progs])):
+            pairs |= s
+        ctx.cov[famname + "_programs"] = len(xf.progs)
     rf = ctx.family("replies")
 
     def per_bin_r(b, progs, r):
